@@ -27,7 +27,7 @@ vars == <<c>>
 CaseFile == IOEnv.CASE_FILE
 Table == Core \o Extra(NExtra, Seed)
 NStmt == Len(Table)
-AllExprs == Exprs \o FoldExprs
+AllExprs == Exprs \o FoldExprs \o LongExprs
 NAll == NStmt + Len(AllExprs)
 Kind(sid) == IF sid <= NStmt THEN "stmt" ELSE "expr"
 Text(sid) == IF sid <= NStmt THEN Table[sid].text ELSE AllExprs[sid - NStmt]
